@@ -110,6 +110,9 @@ def schemas():
     if not _S:
         _S['10'] = xmlschema.XMLSchema10(RICH_XSD)
         _S['11'] = xmlschema.XMLSchema11(RICH_XSD)
+        # XSD 1.1 only: attribute k is inheritable, elements carrying it validate their content with a copied context
+        _S['11i'] = xmlschema.XMLSchema11(RICH_XSD.replace('<xs:attribute name="k" type="t:small"/>',
+                                                           '<xs:attribute name="k" type="t:small" inheritable="true"/>'))
     return _S
 
 
